@@ -160,6 +160,14 @@ class StructType(AggregateType):
             repr(self._name), repr(self._declarations)
         )
 
+    def __eq__(self, other):
+        """A struct type loaded from a stored module is a copy of the
+        declaration, so compare the declaration instead of the object."""
+        return isinstance(other, StructType) and repr(self) == repr(other)
+
+    def __hash__(self):
+        return hash(repr(self))
+
     def GetName(self):
         return self._name
 
